@@ -159,6 +159,9 @@ static CO_ERR COTEmcyHistInit (struct CO_OBJ_T *obj, struct CO_NODE_T *node)
 
             emcy->Hist.Max = sub;
             emcy->Hist.Off = 0;
+
+            /* the object content restarts empty like the history state */
+            COEmcyHistReset(emcy);
         }
         result = CO_ERR_NONE;
     }
